@@ -70,6 +70,7 @@ type Ghost struct {
 	Name      string
 	Sort      string // SMT sort of the element: Int, Bool, Iface
 	AllocType string // Go type whose allocation zero-initialises this ghost ("" = none)
+	Local     bool   // activation-local ghost: zero at function entry, never changed by callees except through an explicit modifies target
 }
 
 type ImmutDecl struct {
@@ -243,8 +244,8 @@ func (cs *Contracts) LoadFile(path, pkgPath string) error {
 		switch l.kw {
 		case "ghost":
 			f := strings.Fields(l.rest)
-			if len(f) != 2 && !(len(f) == 4 && f[2] == "alloc") {
-				return fail(l, "ghost NAME SORT [alloc TYPE]")
+			if len(f) != 2 && !(len(f) == 4 && f[2] == "alloc") && !(len(f) == 3 && f[2] == "local") {
+				return fail(l, "ghost NAME SORT [alloc TYPE | local]")
 			}
 			srt := map[string]string{"int": "Int", "bool": "Bool", "object": "Iface"}[f[1]]
 			if srt == "" {
@@ -253,6 +254,9 @@ func (cs *Contracts) LoadFile(path, pkgPath string) error {
 			g := &Ghost{Name: f[0], Sort: srt}
 			if len(f) == 4 {
 				g.AllocType = f[3]
+			}
+			if len(f) == 3 {
+				g.Local = true
 			}
 			cs.Ghosts[f[0]] = g
 			cur, curLoop, curLemma = nil, nil, nil
